@@ -103,7 +103,7 @@ def gen_names(ctx: Ctx) -> List[str]:
     pools = [
         (ASCII_OK, 6), (" ", 2), ("-", 2), (PUNCT, 1), (WHITE, 1), (NONASCII, 2),
     ]
-    for _ in range(ctx.n(900, 40000)):
+    for _ in range(ctx.n(2500, 40000)):
         mode = rng.random()
         if mode < 0.15:
             ln = rng.choice([1, 2, 3, 5, 8])
@@ -248,7 +248,7 @@ def gen_cfg_cases(ctx: Ctx):
         {"cfg": 1, "hash": None, "ops": [["set", "a"]]},
         {"cfg": 1, "hash": "a", "ops": [["set", "a"], ["set", "a"]]},
     ]
-    for _ in range(ctx.n(300, 20000)):
+    for _ in range(ctx.n(1000, 20000)):
         start = rng.choice([1, 2, 255, 256, 65533, 65534, 65535, rng.randrange(1, 65536)])
         h = rng.choice([None, "h0", "h1", "h2"])
         ops = []
@@ -1112,7 +1112,7 @@ def run(ctx: Ctx):
     st.sample({"display_name": "- - H---A---P---P---Y - -", "impl": impl_names(m, "- - H---A---P---P---Y - -")})
 
     # --- TXT record
-    for i in range(ctx.n(120, 4000)):
+    for i in range(ctx.n(300, 4000)):
         case = {
             "name": rng.choice(["Lamp", "Test Accessory", "\u00e9 Lamp!", "--h a p p y--", "Bridge 2"]),  # degenerate names: names stream
             "category": rng.choice([1, 2, 5, 8, 17, 32, rng.randrange(256)]),
@@ -1160,10 +1160,9 @@ def run(ctx: Ctx):
         st.case(["x", case], True)
         st.hit("op", "xhm")
         st.hit("outcome", "xhm-ok" if "ok" in got else "xhm-raises")
-    st.sample({"xhm_case": case, "impl": got})
 
     # --- restart pairs
-    n_restart = ctx.n(36, 1000)
+    n_restart = ctx.n(80, 1000)
     for i in range(n_restart):
         a = gen_config(rng)
         kind, b, changed = mutate_config(rng, a)
@@ -1190,7 +1189,7 @@ def run(ctx: Ctx):
             st.sample({"restart_kind": kind, "c1": got["c1"], "c2": got["c2"], "hash_equal": got["h1"] == got["h2"]})
 
     # --- values never move the hash
-    for i in range(ctx.n(30, 800)):
+    for i in range(ctx.n(80, 800)):
         cfg = gen_config(rng)
         ops = []
         for _ in range(rng.randrange(1, 8)):
@@ -1212,7 +1211,7 @@ def run(ctx: Ctx):
 
     # --- ordering scripts
     scripts = [json.loads(json.dumps(s)) for s in BOUNDARY_SCRIPTS]
-    for _ in range(ctx.n(140, 8000)):
+    for _ in range(ctx.n(400, 8000)):
         scripts.append(gen_sys_script(rng, big=not ctx.quick and rng.random() < 0.3))
     for i, script in enumerate(scripts):
         got = impl_sys(m, script)
